@@ -440,3 +440,5 @@ ctl!(Ctl0, ());
 ctl!(Ctl1, Read<'c, R<0>>);
 ctl!(Ctl2, Write<'c, R<1>>);
 ctl!(Ctl3, (Read<'c, R<2>>, Write<'c, R<0>>));
+ctl!(Ctl4, Option<Read<'c, R<3>>>);
+ctl!(Ctl5, WriteExpect<'c, R<4>>);
